@@ -59,6 +59,7 @@ def main():
     check_tests = False
     skip_done = False
     expect_pass = False
+    tests_only = False
     respath_override = None
     i = 0
     while i < len(args):
@@ -74,6 +75,8 @@ def main():
             check_tests = True; i += 1
         elif args[i] == "--skip-done":
             skip_done = True; i += 1
+        elif args[i] == "--tests-only":
+            tests_only = True; check_tests = True; i += 1
         elif args[i] == "--expect-pass":
             expect_pass = True; i += 1
         elif args[i] == "--results":
@@ -93,7 +96,9 @@ def main():
             results = {}
     for m in muts:
         props = [p for p in m["props"] if not props_filter or p in props_filter]
-        if skip_done:
+        if tests_only and isinstance(results.get(m["name"]), dict) and results[m["name"]].get("tests_pass") is not None:
+            continue
+        if skip_done and not tests_only:
             done = results.get(m["name"], {}).get("results", {}) if isinstance(results.get(m["name"]), dict) else {}
             props = [p for p in props if p not in done]
         if not props:
@@ -116,7 +121,7 @@ def main():
                 print("%-40s existing test suite with the change: %s" % (m["name"], "98/98 pass" if tests_pass else "FAILS (not a valid mutant): " + r.stdout[-200:]), flush=True)
             env = dict(os.environ, VERIF_REPO=tree, VERIF_EVIDENCE_DIR=os.path.join(tree, "_evidence"), VERIF_SEED=seed)
             res = {}
-            for pid in props:
+            for pid in ([] if tests_only else props):
                 t0 = time.time()
                 r = subprocess.run([sys.executable, os.path.join(VERIF, "check.py"), pid, tier], stdout=subprocess.PIPE, stderr=subprocess.STDOUT, text=True, env=env, cwd=VERIF)
                 caught = r.returncode == 1 and "VIOLATION property=%s" % pid in r.stdout
